@@ -47,6 +47,8 @@ const (
 	_binaryShortLenTagMin = byte(0x20) // 1-byte length binary min
 	_binaryShortLenTagMax = byte(0x2f) // 1-byte length binary max
 	_binaryShortTagMaxLen = int(_binaryShortLenTagMax - _binaryShortLenTagMin)
+	_binaryMiddleTagMin   = byte(0x34) // 2-octet form, length 0-1023
+	_binaryMiddleTagMax   = byte(0x37)
 )
 
 var (
@@ -139,14 +141,12 @@ func decodeBinaryValue(reader ByteRuneReader, flag int32) ([]byte, error) {
 			return nil, fmt.Errorf("error binary tag: 0x%x", tag)
 		}
 
-		newLength, err := getBinaryLen(reader, tag)
+		// every chunk has its own length: the next one may be shorter or longer than the one before
+		length, err = getBinaryLen(reader, tag)
 		if err != nil {
 			return nil, err
 		}
-		if newLength < length {
-			buf = buf[:newLength]
-			length = newLength
-		}
+		buf = make([]byte, length)
 	}
 
 	return byteBuf.Bytes(), nil
@@ -160,17 +160,30 @@ func binaryChunkTag(tag byte) bool {
 	return tag == _binaryFinalChunk || tag == _binaryChunk
 }
 
+func binaryMiddleTag(tag byte) bool {
+	return tag >= _binaryMiddleTagMin && tag <= _binaryMiddleTagMax
+}
+
 func binaryEndTag(tag byte) bool {
-	return tag == _binaryFinalChunk || binaryShortTag(tag)
+	return tag == _binaryFinalChunk || binaryShortTag(tag) || binaryMiddleTag(tag)
 }
 
 func binaryTag(tag byte) bool {
-	return binaryShortTag(tag) || binaryChunkTag(tag)
+	return binaryShortTag(tag) || binaryMiddleTag(tag) || binaryChunkTag(tag)
 }
 
 func getBinaryLen(reader ByteRuneReader, tag byte) (int, error) {
 	if binaryShortTag(tag) {
 		return int(tag - _binaryShortLenTagMin), nil
+	}
+
+	if binaryMiddleTag(tag) {
+		bs := make([]byte, 1)
+		_, err := io.ReadFull(reader, bs)
+		if err != nil {
+			return 0, err
+		}
+		return int(tag-_binaryMiddleTagMin)<<8 + int(bs[0]), nil
 	}
 
 	bs := make([]byte, 2)
